@@ -38,7 +38,7 @@ pub trait MapValidVec<T: IsNone>: Vec1View<T> {
                     )
                     .to_trust(len),
             ),
-            n if n < 0 => Box::new(
+            _ => Box::new(
                 self.titer()
                     .skip(n_abs)
                     .zip(self.titer())
@@ -46,7 +46,6 @@ pub trait MapValidVec<T: IsNone>: Vec1View<T> {
                     .chain(std::iter::repeat_n(value, n_abs))
                     .to_trust(len),
             ),
-            _ => Box::new(std::iter::repeat_n(T::zero(), len).to_trust(len)),
         }
     }
 
